@@ -8,6 +8,7 @@
     margin <same arguments as bane>                     -> `<float>`: the smallest relative distance of any value
                                                             from a clipping threshold over all nodes and both passes
                                                             (used by the harness to recognise rounding ties)
+    dec <n> <f>                                         -> the map index of every row (column) of a compressed file
   anything else / malformed -> `bad-op`
 -/
 import Aegean.Driver.Common
@@ -112,6 +113,10 @@ def handle (ws : List String) : String :=
       let o := Aegean.Model.C06.run J.mode J.mask J.G J.stripes J.img
       s!"ok {showRows o.bkg} {showRows o.rms}"
     | none => "bad-op"
+  | ["dec", n, f] =>      -- file index -> map index of a compressed output, for every file row/column
+    match n.toNat?, f.toNat? with
+    | some n, some f => if f = 0 then "bad-op" else showNats ((List.range ((n + f - 1) / f + 1)).map (decIdx n f))
+    | _, _ => "bad-op"
   | "margin" :: rest =>
     match parseJob rest with
     | some J => showFloat (jobMargin J)
